@@ -47,6 +47,8 @@ var corpusScenarios = []corpusScenario{
 	{"criteria-timestamp-range", false, corpusCriteriaTimestampRange},
 	{"utf8-length-limits", false, corpusUTF8LengthLimits},
 	{"address-spellings", false, corpusAddressSpellings},
+	{"bridge-mixed-batches", false, corpusBridgeMixedBatches},
+	{"take-across-25-batches", false, corpusTakeAcrossManyBatches},
 }
 
 func init() { QuickCounts["corpus"] = len(corpusScenarios) }
@@ -385,6 +387,11 @@ func corpusBuyAcrossMarkets(c Cfg) *Result {
 	dust3 := sell(2, "0.000002", "uatom", 1)
 	g.Do(a.MsgBuyDirect(buyer, bo(dust3, "0.000001", "uatom", 1, 1), bo(third, "1", "uatom", 2000, 100), bo(victim, "1", "uatom", 1000000, 20000)), noN("three orders, the second and third bid in the first order's denom uatom"))
 	g.Do(a.MsgBuyDirect(buyer, bo(dust3, "0.000001", "uatom", 1, 1), bo(third, "1", "uregen", 2000, 100), bo(victim, "1", "uregen", 1000000, 20000)), noN("three orders, the third bid in the second order's denom"))
+	// the SAME market twice: an honest first entry, then the same order (or a sibling of its market) bid in a cheap denom
+	g.Do(a.MsgBuyDirect(buyer, bo(victim, "0.000001", "stake", 1000000, 20000), bo(victim, "5", "uatom", 1000000, 60000)), noN("the victim's order twice: a dust bid in stake, then 5 credits bid in uatom"))
+	victim2 := sell(1, "3", "stake", 500000) // a second order in the victim's market
+	g.Do(a.MsgBuyDirect(buyer, bo(victim, "0.000001", "stake", 1000000, 20000), bo(victim2, "3", "uregen", 500000, 20000)), noN("two orders of one market: the first bid in stake, the second in uregen"))
+	g.Do(a.MsgBuyDirect(buyer, bo(victim, "0.000001", "stake", 1000000, 20000), bo(victim2, "1", "stake", 500000, 20000)), okN("two orders of one market, both bid in its denom"))
 	g.Commit()
 	return g.Finish()
 }
@@ -736,5 +743,68 @@ func corpusAddressSpellings(c Cfg) *Result {
 	g.Do(a.MsgSendCredits(0, 1, denom, "1", "", "", ""), "an ordinary send afterwards")
 	g.Commit()
 	g.GenesisRT("after spelled messages")
+	return g.Finish()
+}
+
+// ---- bridge-mixed-batches (C13) -----------------------------------------------------------------------------
+// One MsgBridge naming several batches: every named batch needs ITS OWN bound contract, wherever it stands in the
+// list, and each emitted bridge event carries the contract of the batch it speaks about.  The batch keys are chosen
+// so that a batch key coincides with the project key of another named batch (batch 1 and batch 2 of project 1).
+
+func corpusBridgeMixedBatches(c Cfg) *Result {
+	g := NewG(c, chain.Options{GenesisTime: T0})
+	a := g.App
+	g.Begin(g.now.Add(6 * time.Second))
+	g.Do(a.MsgAddAllowedBridgeChain("polygon"), "gov: allow polygon")
+	cid := g.mkClass(0, []int{0}, "C")
+	pid := g.mkProject(0, cid, "REF")
+	native := g.mkBatch(0, pid, date(2020, 1, 1), date(2021, 1, 1), true, nil, "batch 1: issued natively, no contract", g.iss(1, "100", ""))
+	boundA := g.mkBatch(0, pid, date(2020, 2, 1), date(2021, 2, 1), true, &base.OriginTx{Id: g.txHash(), Source: "polygon", Contract: ethAddr(1)}, "batch 2: bound to contract 1", g.iss(1, "100", ""))
+	boundB := g.mkBatch(0, pid, date(2020, 3, 1), date(2021, 3, 1), true, &base.OriginTx{Id: g.txHash(), Source: "polygon", Contract: ethAddr(2)}, "batch 3: bound to contract 2", g.iss(1, "100", ""))
+	g.Commit()
+	g.Begin(g.nextTime())
+	no := func(t string) string { return expectNote(false, "C13", "bridge-without-contract", t) }
+	ok := func(t string) string { return expectNote(true, "C13", "bridge-with-contract-rejected", t) }
+	g.Do(a.MsgBridge(1, "polygon", ethAddr(9), chain.Credits(boundA, "1"), chain.Credits(native, "1")), no("bound batch 2 first, then the native batch 1 (whose key is batch 2's project key)"))
+	g.Do(a.MsgBridge(1, "polygon", ethAddr(9), chain.Credits(native, "1"), chain.Credits(boundA, "1")), no("native batch first, then a bound one"))
+	g.Do(a.MsgBridge(1, "polygon", ethAddr(9), chain.Credits(boundB, "1"), chain.Credits(boundA, "1"), chain.Credits(native, "1")), no("two bound batches, then the native one"))
+	g.Do(a.MsgBridge(1, "polygon", ethAddr(9), chain.Credits(boundA, "2"), chain.Credits(boundB, "3")), ok("two bound batches: each event must carry its own batch's contract"))
+	g.Do(a.MsgBridge(1, "polygon", ethAddr(9), chain.Credits(boundB, "1"), chain.Credits(boundA, "1"), chain.Credits(boundB, "1")), ok("three entries over two bound batches"))
+	g.Do(a.MsgBridge(1, "polygon", ethAddr(9), chain.Credits(native, "1")), no("the native batch alone"))
+	g.Commit()
+	return g.Finish()
+}
+
+// ---- take-across-25-batches (C11 / C05) -------------------------------------------------------------------------
+// A basket holding far more batches than any plausible page of an index scan; Takes that span more than 10 and
+// more than 20 of them must still release strictly oldest-first, draining each batch before touching the next.
+
+func corpusTakeAcrossManyBatches(c Cfg) *Result {
+	g := NewG(c, chain.Options{GenesisTime: T0})
+	a := g.App
+	g.Begin(g.now.Add(6 * time.Second))
+	cid := g.mkClass(0, []int{0}, "C")
+	pid := g.mkProject(0, cid, "REF")
+	res := g.Do(a.MsgBasketCreate(2, "MANY", "basket", "C", []string{cid}, true, nil, g.basketFee(g.V())), "basket MANY (auto-retire disabled)")
+	bd := respField(res, "basket_denom")
+	const n = 25
+	denoms := make([]string, n)
+	for i := n - 1; i >= 0; i-- { // created and deposited newest first
+		denoms[i] = g.mkBatch(0, pid, date(1995+i, 1, 1), date(1996+i, 1, 1), true, nil, fmt.Sprintf("vintage %d", 1995+i), g.iss(0, "1", ""))
+		if i%8 == 0 {
+			g.Commit()
+			g.Begin(g.nextTime())
+		}
+	}
+	for i := n - 1; i >= 0; i-- {
+		g.Do(a.MsgBasketPut(0, bd, chain.BasketCredit(denoms[i], "1")), fmt.Sprintf("deposit vintage %d", 1995+i))
+	}
+	g.Commit()
+	g.Begin(g.nextTime())
+	g.Do(a.MsgBasketTake(0, bd, "11500000", false, "", ""), "take 11.5 credits: the 11 oldest vintages entirely and half of the 12th")
+	g.Do(a.MsgBasketTake(0, bd, "10500000", false, "", ""), "take 10.5 credits: the rest of the 12th and the next ten")
+	g.Do(a.MsgBasketTake(0, bd, "3000000", false, "", ""), "take the last three")
+	g.Do(a.MsgBasketTake(0, bd, "1", false, "", ""), "take from the empty basket")
+	g.Commit()
 	return g.Finish()
 }
